@@ -102,6 +102,7 @@ static uint64_t tk_u(int src) { return src >= 0 ? R.val[src].u : (src == -1 ? R.
 static uint8_t tk_slen(int src) { return src >= 0 ? R.val[src].slen : (src == -1 ? R.top_tok.slen : R.arr[r_arr_row()][r_arr_col()].slen); }
 static unsigned char tk_s(int src, unsigned i) { return src >= 0 ? R.val[src].s[i] : (src == -1 ? R.top_tok.s[i] : R.arr[r_arr_row()][r_arr_col()].s[i]); }
 static uint8_t tk_tid(int src) { return src >= 0 ? R.val[src].tid : (src == -1 ? R.top_tok.tid : R.arr[r_arr_row()][r_arr_col()].tid); }
+static const void* tk_obj(int src) { return src >= 0 ? R.val[src].obj : (src == -1 ? R.top_tok.obj : R.arr[r_arr_row()][r_arr_col()].obj); }
 static int r_next(bool& is_key, bool& at_break) {
     is_key = false; at_break = false;
     if (r_in_arr) { if (r_arr_pos < r_cur_len()) return -2; at_break = r_arr_indef; return SRC_NONE; }
@@ -119,6 +120,7 @@ static uint8_t r_cbor_type_k(uint8_t kind) {
 }
 CborType CdnsDecoder::peek_type() {
     if (r_tokens >= r_cut) throw CdnsDecoderEnd("End of input stream");
+    if (!r_started && R.top == K_BRK) return CborType::BREAK;          // the only thing offered is the break that closes an enclosing array
     bool is_key, at_break; int src = r_next(is_key, at_break);
     if (at_break) return CborType::BREAK;
     if (is_key) return r_key_of(r_order[r_pos]) < 0 ? CborType::NEGATIVE : CborType::UNSIGNED;
@@ -198,6 +200,7 @@ uint64_t CdnsDecoder::read_array_start(bool& indef) {
 }
 void CdnsDecoder::read_break() {
     r_tick();
+    if (!r_started && R.top == K_BRK) { r_started = true; r_done = true; return; }
     bool is_key, at_break; (void)r_next(is_key, at_break);
     if (!at_break) throw CdnsDecoderException("read_break() called on wrong major type");
     if (r_in_arr) { r_in_arr = false; if (r_arr_slot >= 0) r_member_done(); else r_done = true; }
@@ -217,6 +220,11 @@ uint64_t CdnsDecoder::read_int(uint8_t) { r_misuse = true; return 0; }
 std::string CdnsDecoder::read_string(CborType, uint64_t, bool) { r_misuse = true; return std::string(); }
 void CdnsDecoder::read_to_buffer() { r_misuse = true; }
 // nested read() calls are replaced by this contract: consumes exactly one item of the right type, returns its tag
+static const void* tk_take_item_obj(uint8_t tid) {
+    bool was_key; int64_t key = 0; int t = r_take(false, was_key, key);
+    if (tk_kind(t) != K_ITEM || tk_tid(t) != tid) throw CdnsDecoderException("model: nested item of another type");
+    const void* o = tk_obj(t); r_consumed_value(); return o;
+}
 static uint64_t tk_take_item(uint8_t tid) {
     bool was_key; int64_t key = 0; int t = r_take(false, was_key, key);
     if (tk_kind(t) != K_ITEM || tk_tid(t) != tid) throw CdnsDecoderException("model: nested item of another type");
